@@ -4,7 +4,10 @@
 use std::collections::btree_map::Entry as BEntry;
 use std::collections::hash_map::Entry as HEntry;
 use std::collections::{BTreeMap, HashMap, HashSet};
+use std::hash::Hasher;
 use std::sync::Arc;
+
+use fnv::FnvHasher;
 
 #[cfg(not(prometheus_verif))]
 use parking_lot::RwLock;
@@ -39,11 +42,25 @@ impl std::fmt::Debug for RegistryCore {
     }
 }
 
+/// Identifies a collector by the set of its descriptor ids.
+///
+/// The ids are hashed in sorted order rather than summed: descriptor ids are
+/// FNV hashes, and sums of FNV hashes of similar strings collide easily (the
+/// ids of `m1{c="1"}` and `m2{c="1"}` add up to the same value as those of
+/// `m1{c="2"}` and `m2{c="2"}`).
+fn collector_id_of(mut desc_ids: Vec<u64>) -> u64 {
+    desc_ids.sort_unstable();
+    let mut h = FnvHasher::default();
+    for id in desc_ids {
+        h.write_u64(id);
+    }
+    h.finish()
+}
+
 impl RegistryCore {
     fn register(&mut self, c: Box<dyn Collector>) -> Result<()> {
         let mut desc_id_set = HashSet::new();
         let mut new_dim_hashes: HashMap<String, u64> = HashMap::new();
-        let mut collector_id: u64 = 0;
 
         for desc in c.desc() {
             // Is the desc_id unique?
@@ -78,15 +95,10 @@ impl RegistryCore {
             // Only remember the dimensions once the whole collector is accepted.
             new_dim_hashes.insert(desc.fq_name.clone(), desc.dim_hash);
 
-            // If it is not a duplicate desc in this collector, add it to
-            // the collector_id.
-            if desc_id_set.insert(desc.id) {
-                // The set did not have this value present, true is returned.
-                collector_id = collector_id.wrapping_add(desc.id);
-            } else {
-                // The set did have this value present, false is returned.
-                //
-                // TODO: Should we allow duplicate descs within the same collector?
+            // Duplicate descs within the same collector are rejected.
+            //
+            // TODO: Should we allow duplicate descs within the same collector?
+            if !desc_id_set.insert(desc.id) {
                 return Err(Error::Msg(format!(
                     "a duplicate descriptor within the same \
                      collector the same fully-qualified name: {:?}",
@@ -94,6 +106,8 @@ impl RegistryCore {
                 )));
             }
         }
+
+        let collector_id = collector_id_of(desc_id_set.iter().copied().collect());
 
         match self.collectors_by_id.entry(collector_id) {
             HEntry::Vacant(vc) => {
@@ -108,13 +122,12 @@ impl RegistryCore {
 
     fn unregister(&mut self, c: Box<dyn Collector>) -> Result<()> {
         let mut id_set = Vec::new();
-        let mut collector_id: u64 = 0;
         for desc in c.desc() {
             if !id_set.contains(&desc.id) {
                 id_set.push(desc.id);
-                collector_id = collector_id.wrapping_add(desc.id);
             }
         }
+        let collector_id = collector_id_of(id_set.clone());
 
         if self.collectors_by_id.remove(&collector_id).is_none() {
             return Err(Error::Msg(format!(
